@@ -8,7 +8,7 @@ package main
 //@ import "github.com/tstranex/u2f"
 //@ import "github.com/duo-labs/webauthn/webauthn"
 //@ import "github.com/duo-labs/webauthn/protocol"
-//@ use strings nethttp fmt oauth2 neturl time ssh crypto errors x509 keymasterd_jose pwauth cfssl
+//@ use strings nethttp fmt oauth2 neturl time ssh crypto errors x509 keymasterd_jose pwauth cfssl math
 
 // ---- C17: post-login redirects stay on the keymaster origin ------------------------------------
 //@ pure func noControlBytes(s string) bool = (forallIdx j int :: 0 <= j && j < len(s) ==> s[j] >= 0x20 && s[j] != 0x7f)
@@ -250,8 +250,16 @@ package main
 //@   ensures ret3 == nil ==> ghostAuthed && ret0 == ghostAuthUser && ret1 == ghostAuthLevel && ghostVerifiedBits == 0  #C05.common-identity @C05
 //@ func (*RuntimeState).internalTOTPAuthHandler
 //@   requires ghostAuthed && authUser == ghostAuthUser && currentAuthLevel == ghostAuthLevel && ghostVerifiedBits == 0  #C05.totp-identity @C05
+// a locally verified time-based code: evaluated at most once per two seconds and never while locked out (C14);
+// a code of the 30 s period that was already accepted is not evaluated again (C05 one-time)
+//@ pure func totpPeriodOf(t time_.Time) int64 = int64(fpFloor(float64(timeNanos(t) / 1000000000) / float64(30)))
 //@ func (*RuntimeState).validateUserTOTP
 //@   ghostset ghostVerifiedBits int = ghostVerifiedBits | AuthTypeTOTP if ret0 && ret1 == nil && username == ghostAuthUser
+//@   atcall github.com/pquerna/otp/totp.Validate requires (passcode string, secret string) :: ghostProfileUser == username && ghostProfile.LastSuccessfullTOTPCounter != totpPeriodOf(t)  #C05.totp-one-time @C05
+//@   atcall github.com/pquerna/otp/totp.Validate requires (passcode string, secret string) :: timeNanos(old(state.totpLocalRateLimit[username].lastCheckTime)) + 2000000000 <= nowNanos()  #C14.totp-spacing @C14
+//@   atcall github.com/pquerna/otp/totp.Validate requires (passcode string, secret string) :: timeNanos(old(state.totpLocalRateLimit[username].lockoutExpirationTime)) <= nowNanos()  #C14.totp-lockout-respected @C14
+//@   ensures ret0 && ret1 == nil ==> state.totpLocalRateLimit[username].failCount == 0                     #C14.totp-reset-on-success @C14
+//@   ensures !ret0 && ret1 == nil && old(state.totpLocalRateLimit[username].failCount) < 4000000000 && timeNanos(old(state.totpLocalRateLimit[username].lastCheckTime)) + 2000000000 <= nowNanos() && timeNanos(old(state.totpLocalRateLimit[username].lockoutExpirationTime)) <= nowNanos() && ghostProfile.LastSuccessfullTOTPCounter != totpPeriodOf(t) ==> state.totpLocalRateLimit[username].failCount >= 1  #C14.totp-failure-counted @C14
 
 //@ func (*RuntimeState).VIPAuthHandler
 //@   atcall vip.Client).ValidateUserOTP sets ghostVerifiedBits int (c *vip.Client, userID string, otp int, ok bool, err error) :: ghostVerifiedBits | AuthTypeSymantecVIP if ok && err == nil && userID == ghostAuthUser
